@@ -71,3 +71,7 @@ package blockchain
 //@   loop 0 invariant [frame] forall h hotstuff.Hash :: getok(chain, h) == old(getok(chain, h)) && getblk(chain, h) == old(getblk(chain, h))
 //@   loop 0 invariant [anc] (ok && old(anc(chain, current, target))) == old(anc(chain, block, target))
 //@   modifies chain.blocks[*], chain.blockAtHeight[*], chain.pendingFetch[*], chain.eventLoop.handlers[*], alloc
+
+// Two-state facts used in the contracts of unknown code: block stores stay content-addressed
+// and only grow (existing entries are kept).
+//@ pred storeskept() = (forall c *Blockchain :: old(binv(c)) ==> binv(c)) && (forall c *Blockchain :: old(bmaps(c)) ==> bmaps(c)) && (forall c *Blockchain, h hotstuff.Hash :: old(has(c.blocks, h)) ==> has(c.blocks, h) && c.blocks[h] == old(c.blocks[h]))
